@@ -76,30 +76,33 @@ class Recorder:
         }, open(path, "w"))
 
 
-def run_regress(pid, run_one):
-    """replay tier: saved cases of regress/<pid>.jsonl, one attempt each; returns ({sig: failure}, n)"""
+def run_regress(pid, run_one, extra_cases=()):
+    """replay tier: saved cases of regress/<pid>.jsonl plus `extra_cases` (a finite sub-domain that is
+    enumerated completely), one attempt each; returns ({sig: failure}, n)"""
     path = os.path.join(VERIF, "regress", f"{pid}.jsonl")
     fails, n = {}, 0
-    if not os.path.exists(path) or run_one is None:
+    if run_one is None:
         return fails, n
-    for l in open(path):
-        l = l.strip()
-        if not l or l.startswith("#"):
-            continue
-        case = json.loads(l)
+    cases = []
+    if os.path.exists(path):
+        for l in open(path):
+            l = l.strip()
+            if l and not l.startswith("#"):
+                cases.append(json.loads(l))
+    for pref, case in [("[saved regression case] ", c) for c in cases] + [("", c) for c in extra_cases]:
         n += 1
         try:
             for sig, msg in run_one(case):
-                fails.setdefault(sig, {"sig": sig, "msg": "[saved regression case] " + msg, "case": {k: v for k, v in case.items() if k not in ("property", "signature", "message")}})
+                fails.setdefault(sig, {"sig": sig, "msg": pref + msg, "case": {k: v for k, v in case.items() if k not in ("property", "signature", "message")}})
         except Exception:
             pass  # inconclusive session: the generated cases decide
     return fails, n
 
 
-def run_parallel(pid, script, tier, nworkers, examples_per_worker, level, rule, assumptions, seed, extra_env=None, exhaustive=False, regress_one=None):
+def run_parallel(pid, script, tier, nworkers, examples_per_worker, level, rule, assumptions, seed, extra_env=None, exhaustive=False, regress_one=None, extra_cases=()):
     """spawn workers, aggregate, write evidence, print protocol lines, return exit code"""
     t0 = time.time()
-    pre_fails, n_regress = run_regress(pid, regress_one)
+    pre_fails, n_regress = run_regress(pid, regress_one, extra_cases)
     work = os.path.join(VERIF, "work", "py", pid)
     os.makedirs(work, exist_ok=True)
     os.makedirs(os.path.join(VERIF, "work", "logs"), exist_ok=True)
